@@ -2819,7 +2819,7 @@ func doCompositeBinStruct(n *node, hasType bool) {
 				if isFuncSrc(c.child[1].typ) {
 					values[i] = genFunctionWrapper(c.child[1])
 				} else {
-					values[i] = genValue(c.child[1])
+					values[i] = genInterfaceWrapper(c.child[1], sf.Type)
 				}
 			}
 		} else {
@@ -2828,7 +2828,7 @@ func doCompositeBinStruct(n *node, hasType bool) {
 				values[i] = genFunctionWrapper(c)
 			} else {
 				convertLiteralValue(c, typ.Field(i).Type)
-				values[i] = genValue(c)
+				values[i] = genInterfaceWrapper(c, typ.Field(i).Type)
 			}
 		}
 	}
